@@ -20,7 +20,7 @@ from ..vloop import virtual_world
 CLASSES = ("genuine", "forged", "wrongkey", "wrongsid", "nested", "diag", "plainresp", "plain")
 
 
-def run_hist(history, pre=(), seed=0, second=None):
+def run_hist(history, pre=(), seed=0, second=None, cbfail=False):
     """history: list of (cls, seq) delivered after connect();  pre: list delivered before the handshake (no key yet: plain frames / wrappers)"""
     from cryptography.hazmat.primitives import serialization
     from cryptography.hazmat.primitives.asymmetric.x25519 import X25519PrivateKey, X25519PublicKey
@@ -54,7 +54,19 @@ def run_hist(history, pre=(), seed=0, second=None):
         async def main():
             sess = SecureSession(("10.0.0.2", 3671), user_id=2, user_password="pw", device_authentication_password="dev")
             got = []
-            sess.register_callback(lambda f, src, t: got.append(type(f.body).__name__))
+
+            armed = []
+
+            def on_frame(f, src, t):
+                got.append(type(f.body).__name__)
+                if cbfail and armed and len(got) % 2 == 0:
+                    # the consumer of the frame cannot make sense of it (what a tunnel does with an unparsable cEMI frame): the
+                    # transport logs it; the frame has been passed on all the same
+                    from xknx.exceptions import CouldNotParseKNXIP  # noqa: PLC0415
+
+                    raise CouldNotParseKNXIP("consumer: cannot parse")
+
+            sess.register_callback(on_frame)
 
             def feed(raw, cls, seq):
                 before = len(got)
@@ -146,6 +158,7 @@ def run_hist(history, pre=(), seed=0, second=None):
             for cls, seq in pre:
                 feed(build(cls, seq), cls, seq)
             await sess.connect()
+            armed.append(1)
             for cls, seq in history:
                 loop.inject(feed, build(cls, seq), cls, seq)
                 await asyncio.sleep(0.01)
@@ -154,6 +167,7 @@ def run_hist(history, pre=(), seed=0, second=None):
             except Exception as ex:  # noqa: BLE001
                 ev.append({"ev": "send_raised:" + type(ex).__name__})
             await asyncio.sleep(55)              # silence: a keep-alive has to go out, wrapped
+            armed.clear()
             old_frame = bytes(wrap(inner(), 2**40))      # a frame of this session, wrapped with its key: to be replayed later
             sess.stop()
             ev.append({"ev": "stopped"})
@@ -218,15 +232,16 @@ def run(ck):
     ps = plans(ck)
     # every third history is followed by a second connect of the same object: answered by a forger, or a regular new session
     second = [None if i % 3 else ("forged" if i % 2 else "new") for i in range(len(ps))]
-    traces = [run_hist(h, pre, ck.seed, second[i]) for i, (h, pre) in enumerate(ps)]
+    cbfail = [i % 4 == 1 for i in range(len(ps))]           # every fourth history with a consumer that fails on every second frame
+    traces = [run_hist(h, pre, ck.seed, second[i], cbfail[i]) for i, (h, pre) in enumerate(ps)]
     res = tlc.batch(ck, "io/SecSession_Trace", traces, min_per_shard=40)
     for idx, info in sorted(res.bad.items()):
         t = traces[idx]
         l = info if isinstance(info, int) else 0
         e = t[l - 1] if 0 < l <= len(t) else None
-        ck.violation({"history": [list(x) for x in ps[idx][0]][:10], "pre": [list(x) for x in ps[idx][1]], "rejected": e, "second": second[idx]},
+        ck.violation({"history": [list(x) for x in ps[idx][0]][:10], "pre": [list(x) for x in ps[idx][1]], "rejected": e, "second": second[idx], "cbfail": cbfail[idx]},
                      f"secure session trace rejected at event {l}: {e}; before {t[max(0, l - 6):l - 1]}; history {ps[idx][0][:10]} pre {ps[idx][1]}",
-                     {"history": ps[idx][0], "pre": ps[idx][1], "second": second[idx], "trace": t, "rejected_at": l})
+                     {"history": ps[idx][0], "pre": ps[idx][1], "second": second[idx], "cbfail": cbfail[idx], "trace": t, "rejected_at": l})
     muts = []
     for i, t in enumerate(traces):
         if i in res.bad or len(muts) >= 120:
@@ -257,7 +272,7 @@ def replay(ck, path):
     import json
 
     d = json.loads(open(path).read())["replay"]
-    t = run_hist([tuple(x) for x in d["history"]], [tuple(x) for x in d["pre"]], ck.seed, d.get("second"))
+    t = run_hist([tuple(x) for x in d["history"]], [tuple(x) for x in d["pre"]], ck.seed, d.get("second"), bool(d.get("cbfail")))
     res = tlc.batch(ck, "io/SecSession_Trace", [t])
     print("trace:", t, "\nrejected at:", res.bad.get(0))
     return 1 if res.bad else 0
